@@ -786,6 +786,15 @@ class CFG:
                 arm = pol
             elif isinstance(x, ast.If) and inside(x.orelse):
                 arm = not pol
+            elif isinstance(x, ast.If) and not x.orelse and isinstance(x.body[-1], (ast.Continue, ast.Break, ast.Return, ast.Raise)):
+                # guard clause: what follows it in the same block runs only when the test failed
+                for par in ast.walk(self.fn):
+                    for fld in ("body", "orelse", "finalbody"):
+                        lst = getattr(par, fld, None)
+                        if isinstance(lst, list) and any(y is x for y in lst):
+                            i = [k for k, y in enumerate(lst) if y is x][0]
+                            if inside(lst[i + 1:]):
+                                arm = not pol
             if arm is None:
                 continue
             if (isinstance(t.op, ast.Or) and arm is True) or (isinstance(t.op, ast.And) and arm is False):
